@@ -13,7 +13,7 @@
                        renames VARIANTS, a variant's `rename_all` renames its FIELDS
      field presence    serde_derive de.rs (missing field: `default` ->
                        Default::default(), Option -> None, else error), ser.rs
-                       (skip_serializing_if = "Option::is_none")
+                       (skip_serializing_if = "Option::is_none"); `default = "path"` -> path()
    Tied on every run to the compiled ORIGIN crate (py/props/c04.py, K5-origin):
    [de]/[ser] on [ir_of_rust U] vs serde_json::from_str/to_value on the real
    derive output, same JSON candidates. *)
@@ -47,7 +47,8 @@ Record rfield := mkRField {
   rf_ty : rty;
   rf_rename : option ustring;    (* #[serde(rename = "..")] *)
   rf_default : bool;             (* #[serde(default)] *)
-  rf_skip_none : bool }.         (* #[serde(skip_serializing_if = "Option::is_none")] *)
+  rf_skip_none : bool;           (* #[serde(skip_serializing_if = "Option::is_none")] *)
+  rf_default_fn : option json }. (* #[serde(default = "f")]: the JSON form of the value f() returns *)
 
 Inductive rvshape :=
 | RvUnit
@@ -239,13 +240,17 @@ Definition is_option (t : rty) : bool :=
    None on output; PDefault v = missing -> v, always written; PRequired on an Option =
    missing -> None, always written) *)
 Definition field_state (U : universe) (cdefault : bool) (f : rfield) : pstate :=
+  match rf_default_fn f with
+  | Some j => PDefault j       (* a member-level default function wins over the container default *)
+  | None =>
   if rf_skip_none f && is_option (rf_ty f) then POptional
   else if rf_default f || cdefault then
     match default_json U default_fuel (rf_ty f) with
     | Some j => PDefault j
     | None => PRequired
     end
-  else PRequired.
+  else PRequired
+  end.
 
 Definition tr_field (U : universe) (names : list (ustring * id)) (rule : rename_rule) (cdefault : bool)
            (f : rfield) (st : tstate) : prop * tstate :=
